@@ -12,6 +12,8 @@
 //!           probes outside the property's domain (tagged cls = "probe.*"): Encode -> Decode.
 //! `cases`   seeded random operation lists as file-side values for the TLA+ Producer (Gen_Content).
 //! `replay`  TLC-generated content (REPLAY lines): Given -> Decode -> Encode -> Decode.
+//! `history` schedules of ContentHist (disturbances = decoding damaged input, per thread) around judged calls:
+//!           Reset -> (Encode -> Decode)* -> Disturb* -> the same (Encode -> Decode)*.
 //! `inline`  seeded inline images (all supported colour spaces x BPC x small geometry, data with EI,
 //!           white-space, delimiters): Given -> Decode -> Encode -> Decode.
 use lopdf::content::{Content, Operation};
@@ -193,6 +195,61 @@ fn dict(pairs: Vec<(&[u8], Object)>) -> Object {
     Object::Dictionary(d)
 }
 
+/// the hostile name vocabulary: empty name, white-space, every delimiter, '#', '#' + two hex digits, bytes >= 128,
+/// names that look like table 93 keys or like operators
+const HOSTILE_NAMES: &[&[u8]] = &[
+    b"", b"A B", b"\t", b"\r", b"\n", b"\x00", b"\x0c", b"(", b")", b"<", b">", b"[", b"]", b"{", b"}", b"/", b"%", b"#", b"Rev#A1", b"#23",
+    b"\x80\xff", b"Tag(1)", b"Scan Note", b"Wide", b"IDx", b"EI", b"a/b%c", b"\x7f", b"~!",
+];
+
+/// a valid inline image operation built through the API: BI with one Stream operand
+fn api_image(cs: &str, full: bool, w: i64, h: i64, bpc: i64, extra: Vec<(Vec<u8>, Object)>, fill: u8) -> Operation {
+    let n = match cs {
+        "G" | "DeviceGray" => 1,
+        "RGB" | "DeviceRGB" => 3,
+        _ => 4,
+    };
+    let len = (h * ((w * n * bpc + 7) / 8)) as usize;
+    let mut d = Dictionary::new();
+    let (kw, kh, kb, kc): (&[u8], &[u8], &[u8], &[u8]) = if full { (b"Width", b"Height", b"BitsPerComponent", b"ColorSpace") } else { (b"W", b"H", b"BPC", b"CS") };
+    d.set(kw.to_vec(), Object::Integer(w));
+    d.set(kh.to_vec(), Object::Integer(h));
+    d.set(kb.to_vec(), Object::Integer(bpc));
+    d.set(kc.to_vec(), name(cs.as_bytes()));
+    for (k, v) in extra {
+        d.set(k, v);
+    }
+    let data: Vec<u8> = (0..len).map(|i| if i % 3 == 0 { fill } else { b"EI "[i % 3] }).collect();
+    Operation { operator: "BI".to_string(), operands: vec![Object::Stream(lopdf::Stream::new(d, data))] }
+}
+
+/// API-built inline images: plain ones and ones carrying an entry whose key / name value is hostile
+fn api_images() -> Vec<(String, Vec<Operation>)> {
+    let mut v = vec![];
+    let spaces = ["G", "DeviceGray", "RGB", "DeviceRGB", "CMYK", "DeviceCMYK"];
+    for (i, cs) in spaces.iter().enumerate() {
+        v.push(("api.inline.plain".to_string(), vec![op("q", vec![]), api_image(cs, i % 2 == 1, 3, 2, [1, 2, 4, 8][i % 4], vec![], b' '), op("Q", vec![])]));
+        v.push((
+            "api.inline.optional".to_string(),
+            vec![api_image(cs, i % 2 == 0, 2, 2, 8, vec![(if i % 2 == 0 { b"IM".to_vec() } else { b"ImageMask".to_vec() }, Object::Boolean(false)), (b"I".to_vec(), Object::Boolean(true))], b'\n')],
+        ));
+    }
+    for (i, k) in HOSTILE_NAMES.iter().enumerate() {
+        let cs = spaces[i % 6];
+        let val = match i % 3 {
+            0 => Object::Integer(3),
+            1 => name(k),
+            _ => lit(k),
+        };
+        v.push(("api.inline.hostile-key".to_string(), vec![op("q", vec![]), api_image(cs, i % 2 == 0, 2, 1, 8, vec![(k.to_vec(), val)], b'A'), op("Q", vec![])]));
+    }
+    // a hostile name as the value of a standard-looking extra key
+    for (i, k) in HOSTILE_NAMES.iter().enumerate().filter(|(i, _)| i % 4 == 0) {
+        v.push(("api.inline.hostile-value".to_string(), vec![api_image(spaces[i % 6], false, 1, 1, 8, vec![(b"Intent".to_vec(), name(k))], b'Z')]));
+    }
+    v
+}
+
 fn nested_parens(n: usize) -> Vec<u8> {
     let mut v = vec![b'('; n];
     v.push(b'x');
@@ -218,6 +275,19 @@ fn special_cases() -> Vec<(String, Vec<Operation>)> {
             op("\"", vec![Object::Integer(1), Object::Real(2.0), lit(b"")]),
             op("ET", vec![]),
         ],
+    );
+    add(
+        "names-hostile",
+        HOSTILE_NAMES
+            .iter()
+            .enumerate()
+            .flat_map(|(i, k)| {
+                vec![
+                    op(["gs", "cs", "Do", "f", "n"][i % 5], vec![name(k)]),
+                    op("BDC", vec![name(k), dict(vec![(k, name(k)), (b"K", Object::Array(vec![name(k), Object::Integer(i as i64)]))])]),
+                ]
+            })
+            .collect(),
     );
     add("names", vec![op("gs", vec![name(b"")]), op("cs", vec![name(b"A B#/()<>[]{}%\x00\x7f\x80\xff")]), op("Do", vec![name(b"Tj")]), op("f", vec![name(b"null")])]);
     add(
@@ -304,6 +374,10 @@ fn record(args: &[String]) {
         case += 1;
     }
     for (cls, ops) in probes() {
+        put_roundtrip(&mut out, case, &cls, &ops);
+        case += 1;
+    }
+    for (cls, ops) in api_images() {
         put_roundtrip(&mut out, case, &cls, &ops);
         case += 1;
     }
@@ -398,6 +472,10 @@ struct Inline {
     /// optional keys in full (ImageMask, Interpolate, Decode) or abbreviated (IM, I, D)
     full_opt_keys: bool,
     opts: Vec<Opt>,
+    /// entries outside table 93 (ignored by readers) whose key / value come from the hostile name vocabulary
+    hostile: Vec<(Vec<u8>, u8)>,
+    /// spell every byte of a hostile name as #xx (else only the bytes that need it)
+    hex_all: bool,
     /// order of the entries: a permutation seed (0 = required entries first, in W H BPC CS order)
     order: u64,
     extra: u8,
@@ -414,6 +492,25 @@ fn ncomp(cs: &str) -> usize {
         "RGB" | "DeviceRGB" => 3,
         _ => 4,
     }
+}
+
+/// a name as a producer may spell it (7.3.5): #xx for what is not a regular character, for '#', and for bytes
+/// outside the printable range; `all`: every byte as #xx, lower-case hex digits for every other one
+fn spell_name(b: &[u8], all: bool) -> String {
+    let mut s = String::from("/");
+    for (i, &c) in b.iter().enumerate() {
+        let must = b" \t\r\n\x00\x0c()<>[]{}/%#".contains(&c) || !(33..=126).contains(&c);
+        if must || all {
+            if i % 2 == 1 && all {
+                s.push_str(&format!("#{c:02x}"));
+            } else {
+                s.push_str(&format!("#{c:02X}"));
+            }
+        } else {
+            s.push(c as char);
+        }
+    }
+    s
 }
 
 fn inline_entries(im: &Inline) -> Vec<String> {
@@ -439,6 +536,14 @@ fn inline_entries(im: &Inline) -> Vec<String> {
                 e.push(format!("/{kd} [{}]", vec![pair; n].join(" ")));
             }
         }
+    }
+    for (k, vk) in &im.hostile {
+        let key = spell_name(k, im.hex_all);
+        e.push(match vk % 3 {
+            0 => format!("{key} 3"),
+            1 => format!("{key} {}", spell_name(k, !im.hex_all)),
+            _ => format!("{key} <{}>", k.iter().map(|c| format!("{c:02X}")).collect::<String>()),
+        });
     }
     if im.filter {
         e.push("/F /AHx".to_string());
@@ -547,6 +652,18 @@ fn inline(args: &[String]) {
             // a third of the images keep the conventional order, the others any order
             order: if i % 3 == 0 { 0 } else { 1 + rng.next_u64() % 1_000_000 },
             opts,
+            // every third image carries one or two hostile entries, rotating through the vocabulary
+            hostile: if i % 3 == 1 {
+                let mut hv = vec![(HOSTILE_NAMES[(i / 3) % HOSTILE_NAMES.len()].to_vec(), (i / 3) as u8)];
+                if i % 2 == 0 {
+                    hv.push((HOSTILE_NAMES[(i / 3 + 7) % HOSTILE_NAMES.len()].to_vec(), (i / 3 + 1) as u8));
+                }
+                hv.dedup_by(|a, b| a.0 == b.0);
+                hv
+            } else {
+                vec![]
+            },
+            hex_all: i % 2 == 0,
             extra: rng.byte(),
             idws: if rng.chance(1, 8) { *rng.pick(b"\r\t") } else { *rng.pick(b" \n") },
             data: image_data(&mut rng, len),
@@ -555,7 +672,7 @@ fn inline(args: &[String]) {
         };
         let bytes = inline_bytes(&im);
         let meta = json!({"cs": cs, "bpc": bpc, "w": w, "h": h, "idws": im.idws, "len": len, "opts": opts_json(&im.opts),
-                          "full_keys": im.full_keys, "full_opt_keys": im.full_opt_keys, "entries": inline_entries(&im),
+                          "full_keys": im.full_keys, "full_opt_keys": im.full_opt_keys, "entries": inline_entries(&im), "hostile": im.hostile.len(),
                           "first": im.data.first().map(|x| *x as i64).unwrap_or(-1), "last": im.data.last().map(|x| *x as i64).unwrap_or(-1)});
         put_chain(&mut out, case, "inline", &bytes, meta);
         case += 1;
@@ -573,6 +690,8 @@ fn inline(args: &[String]) {
                 full_keys: (j + v) % 2 == 1,
                 full_opt_keys: (j + v) % 2 == 1,
                 opts,
+                hostile: vec![],
+                hex_all: false,
                 order: if v % 2 == 0 { 0 } else { 7 + (j * 4 + v) as u64 },
                 extra: (j * 4 + v) as u8,
                 idws: b' ',
@@ -588,7 +707,7 @@ fn inline(args: &[String]) {
     // observations outside the quantifier ("supported colour space"): names that are not ISO abbreviations,
     // a mask with a colour space, filtered data, FF / NUL after ID
     let base = |cs: &'static str, bpc: usize, w: usize, h: usize, idws: u8, data: Vec<u8>| Inline {
-        cs, bpc, w, h, full_keys: false, full_opt_keys: false, opts: vec![], order: 0, extra: 0, idws, data, mask: false, filter: false,
+        cs, bpc, w, h, full_keys: false, full_opt_keys: false, opts: vec![], hostile: vec![], hex_all: false, order: 0, extra: 0, idws, data, mask: false, filter: false,
     };
     let probes: Vec<(&str, Inline)> = vec![
         ("probe.inline.cs-Gray", base("Gray", 8, 2, 1, b' ', vec![1, 2])),
@@ -611,6 +730,186 @@ fn inline(args: &[String]) {
     out.finish();
 }
 
+// ---------------------------------------------------------------------------------------------
+// history independence (spec/ContentHist.tla): disturbances on the judging thread, same cases before and after
+
+/// damaged inputs of one kind (ContentHist!Kinds); variant i
+fn damaged(kind: &str, i: usize) -> Vec<u8> {
+    let pick = |xs: &[&[u8]]| xs[i % xs.len()].to_vec();
+    match kind {
+        "trunc-array" => pick(&[b"[1 2 [3", b"q [ (a) [ /N [", b"[[[[", b"/X [1 2 TJ", b"[<</A [1"]),
+        "trunc-dict" => pick(&[b"<</A 1 /B <<", b"/P <</K <</L", b"<<", b"/Span <</MCID 0 BDC", b"<</A [<</B"]),
+        "trunc-string" => pick(&[b"[(abc", b"<</A (x(y)", b"[<41", b"<</K [(\\", b"[ [ (unterminated"]),
+        "too-deep" => {
+            let n = 49 + i % 23;
+            let (o, c): (&[u8], &[u8]) = if i % 2 == 0 { (b"[", b"]") } else { (b"<</A ", b">>") };
+            let mut v = o.repeat(n);
+            v.extend_from_slice(b"1");
+            v.extend(c.repeat(n));
+            v.extend_from_slice(b" TJ");
+            v
+        }
+        "unbalanced" => pick(&[b"[1 2 > Tj", b"<< /A ] >> BDC", b"[ [ ] > ]", b"<</A 1 ] TJ", b"[ << ] >>"]),
+        "bad-token" => pick(&[b"[1 2 } ] TJ", b"<</A } >> BDC", b"[ 1 0 R x ] TJ", b"<</A 1 /B ) >>", b"[ [ { ] ] TJ"]),
+        "inline-trunc" => pick(&[b"BI /W 1 /D [0 1 ID", b"BI /DP <</K [1 ID x EI", b"BI /W 1 /H 1 /BPC 8 /CS /G /D [0 ", b"BI /D [[[ ID", b"q BI /X << ID"]),
+        _ => {
+            // "load-damaged": a file whose objects are truncated arrays / dictionaries (the loader parses objects on
+            // this thread and on the workers of the global rayon pool)
+            let body: &[u8] = [&b"[1 2 [3"[..], b"<</A <</B [", b"[[[[[[", b"<</K [<<"][i % 4];
+            let mut f = b"%PDF-1.4\n1 0 obj\n".to_vec();
+            f.extend_from_slice(body);
+            f.extend_from_slice(b"\nendobj\n2 0 obj\n");
+            f.extend_from_slice(body);
+            f.extend_from_slice(b"\nendobj\ntrailer\n<</Root 1 0 R/Size 3>>\nstartxref\n0\n%%EOF\n");
+            f
+        }
+    }
+}
+
+/// decode `n` damaged inputs of a kind on the calling thread; returns (errors, oks, panics)
+fn disturb(kind: &str, n: usize, salt: usize) -> (usize, usize, usize) {
+    let (mut e, mut o, mut p) = (0, 0, 0);
+    for i in 0..n {
+        let b = damaged(kind, i + salt);
+        let r = if kind == "load-damaged" {
+            match guarded(|| lopdf::Document::load_mem(&b)) {
+                Ok(Ok(_)) => Ok(()),
+                Ok(Err(_)) => Err(false),
+                Err(_) => Err(true),
+            }
+        } else {
+            match decode(&b) {
+                Ok(_) => Ok(()),
+                Err(m) => Err(m.starts_with("panic")),
+            }
+        };
+        match r {
+            Ok(()) => o += 1,
+            Err(false) => e += 1,
+            Err(true) => p += 1,
+        }
+    }
+    (e, o, p)
+}
+
+/// valid operation lists whose operands nest arrays / dictionaries exactly `d` deep (d = 0..3)
+fn judged_cases(d: usize, rng: &mut Rng) -> Vec<Vec<Operation>> {
+    let int = Object::Integer;
+    let fixed: Vec<Vec<Operation>> = match d {
+        0 => vec![vec![op("BT", vec![]), op("Tf", vec![name(b"F1"), int(12)]), op("Tj", vec![lit(b"abc")]), op("ET", vec![])]],
+        1 => vec![
+            vec![op("TJ", vec![Object::Array(vec![lit(b"A"), int(-120), lit(b"B")])])],
+            vec![op("BDC", vec![name(b"Span"), dict(vec![(b"MCID", int(0))])]), op("EMC", vec![])],
+            vec![op("q", vec![]), api_image("G", false, 2, 1, 8, vec![(b"D".to_vec(), Object::Array(vec![int(0), int(1)]))], b'x'), op("Q", vec![])],
+        ],
+        2 => vec![
+            vec![op("TJ", vec![Object::Array(vec![Object::Array(vec![int(1)]), dict(vec![(b"A", int(2))])])])],
+            vec![op("BDC", vec![name(b"P"), dict(vec![(b"K", Object::Array(vec![int(1), int(2)]))])])],
+        ],
+        _ => vec![
+            vec![op("BDC", vec![name(b"P"), dict(vec![(b"K", Object::Array(vec![dict(vec![(b"A", Object::Array(vec![int(1)]))])]))])])],
+            vec![op("d", vec![Object::Array(vec![Object::Array(vec![Object::Array(vec![name(b"")])])]), int(0)])],
+        ],
+    };
+    let mut v = fixed;
+    for _ in 0..2 {
+        v.push(random_ops(rng, true, 3));
+    }
+    v
+}
+
+type Job = Box<dyn FnOnce() + Send>;
+
+/// thread 1 of the model: a dedicated OS thread; thread 2: the worker of a one-thread rayon pool
+struct Execs {
+    tx: std::sync::mpsc::Sender<Job>,
+    pool: rayon::ThreadPool,
+}
+
+impl Execs {
+    fn new() -> Execs {
+        let (tx, rx) = std::sync::mpsc::channel::<Job>();
+        std::thread::Builder::new()
+            .stack_size(32 << 20)
+            .spawn(move || {
+                for j in rx {
+                    j()
+                }
+            })
+            .expect("spawn");
+        let pool = rayon::ThreadPoolBuilder::new().num_threads(1).stack_size(32 << 20).build().expect("pool");
+        Execs { tx, pool }
+    }
+    fn on<T: Send + 'static>(&self, t: u64, f: impl FnOnce() -> T + Send + 'static) -> T {
+        if t == 1 {
+            let (rtx, rrx) = std::sync::mpsc::channel();
+            self.tx.send(Box::new(move || {
+                let _ = rtx.send(f());
+            })).expect("send job");
+            rrx.recv().expect("job result")
+        } else {
+            self.pool.install(f)
+        }
+    }
+}
+
+/// Encode -> Decode of `ops` as JSON events (run on whatever thread calls it)
+fn roundtrip_events(case: u64, cls: &str, t: u64, ops: &[Operation]) -> Vec<Value> {
+    let mut v = vec![];
+    match encode(ops) {
+        Ok(bytes) => {
+            v.push(json!({"ev": "Encode", "case": case, "cls": cls, "t": t, "ops": ops_to_tla(ops), "res": "ok", "bytes": bytes_to_json(&bytes)}));
+            match decode(&bytes) {
+                Ok(o) => v.push(json!({"ev": "Decode", "case": case, "cls": cls, "t": t, "res": "ok", "ops": ops_to_tla(&o)})),
+                Err(e) => v.push(json!({"ev": "Decode", "case": case, "cls": cls, "t": t, "res": e, "ops": []})),
+            }
+        }
+        Err(e) => v.push(json!({"ev": "Encode", "case": case, "cls": cls, "t": t, "ops": ops_to_tla(ops), "res": e, "bytes": []})),
+    }
+    v
+}
+
+fn history(args: &[String]) {
+    let seed = arg_u64(args, "--seed", 1);
+    let reps = arg_u64(args, "--reps", 64) as usize;
+    let scheds = read_ndjson(&arg(args, "--in").unwrap());
+    let mut out = NdjsonOut::create(&arg(args, "--out").unwrap());
+    for (si, sc) in scheds.iter().enumerate() {
+        let hist = sc["hist"].as_array().expect("hist");
+        let judge = hist.last().expect("judge step");
+        let (jt, jd) = (judge["t"].as_u64().unwrap(), judge["d"].as_u64().unwrap() as usize);
+        let mut rng = Rng::new(seed ^ 0xC14_0004 ^ ((si as u64) << 20));
+        let cases = judged_cases(jd, &mut rng);
+        let ex = Execs::new();
+        out.put(&json!({"ev": "Reset", "sched": si, "hist": sc["hist"], "t": jt, "d": jd}));
+        // the same cases on the judging thread before ...
+        for (ci, ops) in cases.iter().enumerate() {
+            let o = ops.clone();
+            for e in ex.on(jt, move || roundtrip_events(ci as u64, "history.fresh", jt, &o)) {
+                out.put(&e);
+            }
+        }
+        // ... the disturbances of the schedule, each on its thread ...
+        for (k, st) in hist.iter().enumerate() {
+            if st["a"].as_str() != Some("disturb") {
+                continue;
+            }
+            let (t, kind) = (st["t"].as_u64().unwrap(), st["kind"].as_str().unwrap().to_string());
+            let kd = kind.clone();
+            let (e, o, p) = ex.on(t, move || disturb(&kd, reps, k * 7 + si));
+            out.put(&json!({"ev": "Disturb", "sched": si, "t": t, "kind": kind, "n": reps, "err": e, "ok": o, "panic": p}));
+        }
+        // ... and after
+        for (ci, ops) in cases.iter().enumerate() {
+            let o = ops.clone();
+            for e in ex.on(jt, move || roundtrip_events(ci as u64, "history.after", jt, &o)) {
+                out.put(&e);
+            }
+        }
+    }
+    out.finish();
+}
+
 fn main() {
     let args: Vec<String> = std::env::args().collect();
     match args.get(1).map(String::as_str) {
@@ -618,8 +917,9 @@ fn main() {
         Some("cases") => cases(&args),
         Some("replay") => replay(&args),
         Some("inline") => inline(&args),
+        Some("history") => history(&args),
         _ => {
-            eprintln!("usage: c14 record --seed S --n N [--rows all|critical|none] --out F | cases --seed S --n N --out F | replay --in F --out F | inline --seed S --n N --out F");
+            eprintln!("usage: c14 record --seed S --n N [--rows all|critical|none] --out F | cases --seed S --n N --out F | replay --in F --out F | inline --seed S --n N --out F | history --seed S --in F --out F [--reps N]");
             std::process::exit(2)
         }
     }
